@@ -66,6 +66,43 @@ pub fn quote_arg(a: &str) -> String {
     o
 }
 
+/// script text of one argument that the command must receive as exactly the text `a` (through the parser AND the
+/// expansion): "${" is written \${ and "%{" is written \\%{ so that neither is taken as a reference.  A backslash run of
+/// directly before '$' or '%' cannot always be written (the expansion takes "\$" as an escaped '$'): make_writable
+/// adjusts such a text first.
+pub fn lit_arg(a: &str) -> String {
+    let cs: Vec<char> = a.chars().collect();
+    let mut o = String::from("\"");
+    for (i, c) in cs.iter().enumerate() {
+        let nx = cs.get(i + 1).copied();
+        match *c {
+            '$' if nx == Some('{') => o.push_str("\\$"),
+            '%' if nx == Some('{') => o.push_str("\\\\%"),
+            '\\' => o.push_str("\\\\"),
+            '"' => o.push_str("\\\""),
+            '\n' => o.push_str("\\n"),
+            '\r' => o.push_str("\\r"),
+            '\t' => o.push_str("\\t"),
+            c => o.push(c),
+        }
+    }
+    o.push('"');
+    o
+}
+/// a nearby text that can be passed literally: the expansion's escape handling depends on what stands directly
+/// before a '$' / '%' (a backslash escapes it, a preceding '$' / '%' disables the escape written in front of "${"),
+/// so every '$' / '%' that follows a backslash, '$' or '%' gets a separating letter in front of it
+pub fn make_writable(a: &str) -> String {
+    let mut o = String::new();
+    let mut prev = ' ';
+    for c in a.chars() {
+        if (c == '$' || c == '%') && (prev == '\\' || prev == '$' || prev == '%') { o.push('x'); }
+        o.push(c);
+        prev = c;
+    }
+    o
+}
+
 /// the same through parse_text + run_script (parser o expansion)
 pub fn bind_script(written: &[String], env: &HashMap<String, String>) -> Result<Vec<String>, String> {
     let log = Rc::new(RefCell::new(vec![]));
@@ -191,6 +228,33 @@ pub fn record(args: &[String]) {
         let got = bind_direct(&written, &env).unwrap_or_else(|e| vec![format!("<<{}>>", e)]);
         let envj: Vec<Value> = env.iter().map(|(k, v)| json!({"k": cps(k), "v": cps(v)})).collect();
         out.rec(&json!({"args": targs, "env": envj, "written": written.iter().map(|w| cps(w)).collect::<Vec<_>>(), "got": got.iter().map(|g| cps(g)).collect::<Vec<_>>()}));
+    }
+    s.set("cases", json!(n));
+    s.finish();
+}
+
+/// harness self-validation: for random texts (made writable) `cap <lit_arg(T)>` must hand exactly T to the command
+pub fn lit_selftest(args: &[String]) {
+    let seed: u64 = args.get(0).and_then(|x| x.parse().ok()).unwrap_or(1);
+    let n: usize = args.get(1).and_then(|x| x.parse().ok()).unwrap_or(20000);
+    let mut r = Rng::new(seed);
+    let mut s = Summary::new();
+    const SOUP: &[char] = &['\\', '\\', '$', '%', '{', '}', '"', '#', ' ', '=', 'a', 'é', '\n', '\t', '\r', '😀', ':', '!'];
+    let log = Rc::new(RefCell::new(vec![]));
+    let mut base = Context::new();
+    base.commands.set(Box::new(Cap { log: log.clone() })).unwrap();
+    base.variables.insert("a".into(), "VALUE".into());
+    for _ in 0..n {
+        let k = 1 + r.below(3);
+        let texts: Vec<String> = (0..k).map(|_| { let len = r.below(9); let t: String = (0..len).map(|_| *r.pick(SOUP)).collect(); make_writable(&t) }).collect();
+        let script = format!("cap {}\n", texts.iter().map(|t| lit_arg(t)).collect::<Vec<_>>().join(" "));
+        log.borrow_mut().clear();
+        let res = run_guarded(&script, base.clone(), Some(quiet_env()));
+        let got = log.borrow().get(0).cloned();
+        // an empty text is received as one empty argument
+        if !matches!(res, Ok(Ok(_))) || got.as_ref() != Some(&texts) {
+            s.mismatch(json!({"texts": texts, "script": script, "got": got}));
+        }
     }
     s.set("cases", json!(n));
     s.finish();
